@@ -419,6 +419,7 @@ class Engine:
         self._fresh = 0
         self.sequence_repeat_hook = None
         self.small_bounds = (64, 4096, 1 << 20)
+        self.count_paths_as_cases = False
 
     # ---- solver plumbing -------------------------------------------------
     def check(self, *extra):
@@ -472,6 +473,9 @@ class Engine:
                 try:
                     fn(self)
                     self.stats.paths += 1
+                    if self.count_paths_as_cases:
+                        # a case = one feasible path of this harness (one class of placements / one graph)
+                        self.stats.hashes.add(hashlib.md5((self.name + "|path|" + repr(self.trail)).encode()).hexdigest())
                 except Abort:
                     self.stats.aborted += 1
                 except Truncated:
